@@ -93,6 +93,29 @@ Example ex_swarm_factory_raises :
   s_returned r = false /\ length (s_workers r) = 2%nat.
 Proof. vm_compute. repeat split. Qed.
 
+(* ---- consecutive calls on one object -------------------------------------- *)
+(* three heal() calls with max_retries = 1 against the never-valid generator: 2 + 2 + 2
+   generator invocations (6 distinct outputs: the generator goes on counting), each
+   call degraded and tagged; the first invocation of each call has no error context *)
+Example ex_heal_history :
+  let rs := heal_runs ex_gen_bad ex_validate (1 # 8) 1 3 0 in
+  map (fun r => length (h_calls r)) rs = [2; 2; 2]%nat /\
+  map h_outcome rs = [Degraded; Degraded; Degraded] /\
+  map (fun r => nth_error (h_calls r) 0) rs =
+    [Some (0%nat, None); Some (0%nat, None); Some (0%nat, None)] /\
+  map (fun r => nth_error (h_attempts r) 0) rs =
+    [Some (mkAttempt 0 1 (Some 1) false 0); Some (mkAttempt 0 7 (Some 1) false 0);
+     Some (mkAttempt 0 13 (Some 1) false 0)].
+Proof. vm_compute. repeat split. Qed.
+
+(* two supervise() calls, max_regenerations = 1, 3 steps: workers 0,1 then 2,3; the
+   second call finds worker 2 (its own worker 0) finishing at its second step *)
+Example ex_swarm_history :
+  let rs := swarm_runs (fun _ => true) ex_done (1 # 2) 1 3 2 0 in
+  map (fun r => map w_steps (s_workers r)) rs = [[3; 3]; [2]]%nat /\
+  map s_success rs = [false; true] /\ map s_output rs = [None; Some 42].
+Proof. vm_compute. repeat split. Qed.
+
 (* ---- tool loop ----------------------------------------------------------- *)
 (* the scripted stub environment of the correspondence cases, state = (provider
    invocations so far, open tool frames) *)
